@@ -106,6 +106,19 @@ def atom_desc(a: dict) -> dict:
             seq.append(body[0])
         else:
             mf[a["name"]] = body
+    elif k == "unionhex":
+        f, t = a["field"], a["text"]
+        if f == "content":
+            seq.append({"suit-directive-override-parameters": {"suit-parameter-content": t}})
+        elif f in ("kid", "kidunprot"):
+            hdr = {"suit-cose-algorithm-id": "cose-alg-es-256", "suit-cose-key-id": t}
+            d["SUIT_Envelope_Tagged"]["suit-authentication-wrapper"]["SuitAuthentication0"] = {"CoseSign1Tagged": {
+                "protected": hdr if f == "kid" else {"suit-cose-algorithm-id": "cose-alg-es-256"},
+                "unprotected": {} if f == "kid" else {"suit-cose-key-id": t}, "payload": None, "signature": "5a" * 64}}
+        else:
+            info = param_value("suit-parameter-encryption-info", 1)
+            info["CoseEncryptTagged"]["recipients"][0]["unprotected"]["suit-cose-key-id"] = t
+            seq.append({"suit-directive-override-parameters": {"suit-parameter-encryption-info": info}})
     elif k == "strlen":
         mf["suit-reference-uri"] = "u" * a["n"]
         seq.append({"suit-directive-override-parameters": {"suit-parameter-uri": "v" * a["n"]}})
